@@ -52,6 +52,9 @@ func (c c16Case) view(store map[string]int, rootVariant int) gen.GraphCase {
 	return v
 }
 
+// c16IDs: `id`s of root schemas, several under the scheme and host of the documents of the histories.
+var c16IDs = []string{"other.json", "file:///w/a/sib.json", "file:///w/ids/x.json", "sub/", "http://r.example/w/ids.json", "https://r.example:8443/ids.json", "http://json-schema.org/draft-04/schema#", "#anchor"}
+
 var metaRefs = []string{
 	"http://swagger.io/v2/schema.json#/definitions/info",
 	"http://swagger.io/v2/schema.json#/definitions/license/properties/name",
@@ -112,6 +115,8 @@ type c16Result struct {
 	Out   []byte   `json:"out,omitempty"`
 	Skip  bool     `json:"skip,omitempty"`
 	Loads []string `json:"loads,omitempty"`
+	// OptsDiff is non-empty when the option structure passed to the call came back changed.
+	OptsDiff string `json:"opts_diff,omitempty"`
 }
 
 // execCall runs one call step on a view (used in-process and in the fresh worker).
@@ -122,7 +127,7 @@ func execCall(view gen.GraphCase, st c16Step) c16Result {
 		if run.Panic != "" {
 			return c16Result{Err: "panic: " + run.Panic}
 		}
-		r := c16Result{Out: run.OutBytes, Loads: run.Loads}
+		r := c16Result{Out: run.OutBytes, Loads: run.Loads, OptsDiff: run.OptsDiff}
 		if run.Err != nil {
 			r.Err = run.Err.Error()
 		}
@@ -135,7 +140,7 @@ func execCall(view gen.GraphCase, st c16Step) c16Result {
 		if run.Panic != "" {
 			return c16Result{Err: "panic: " + run.Panic}
 		}
-		r := c16Result{Out: run.OutBytes, Loads: run.Loads}
+		r := c16Result{Out: run.OutBytes, Loads: run.Loads, OptsDiff: run.OptsDiff}
 		if run.Err != nil {
 			r.Err = run.Err.Error()
 		}
@@ -184,6 +189,24 @@ func oracleC16(c c16Case, fresh bool) (*vstat.Failure, bool) {
 			continue
 		case "meta":
 			checkMeta(f, st.Ref, where)
+		case "idschema":
+			// a call whose root schema declares an `id` (what the resolver learns from it must die with the call)
+			guard(f, where, func() {
+				in := fmt.Sprintf(`{"id":%q,"title":"with-id","properties":{"p":{"type":"string"}}}`, st.Ref)
+				var sch spec.Schema
+				_ = json.Unmarshal([]byte(in), &sch)
+				refuse := func(p string) (json.RawMessage, error) { return nil, fmt.Errorf("nothing to load (asked for %s)", p) }
+				if err := spec.ExpandSchemaWithBasePath(&sch, nil, &spec.ExpandOptions{RelativeBase: gen.RootURL, PathLoader: refuse}); err != nil {
+					f.Add("ERROR", where, "expanding a $ref-free schema with id %q failed: %v", st.Ref, err)
+					return
+				}
+				var a, b any
+				_ = json.Unmarshal([]byte(in), &a)
+				_ = json.Unmarshal(mustJSON(&sch), &b)
+				if d := model.Diff(a, b); len(d) > 0 {
+					f.Add("STALE-OR-WRONG", where, "a $ref-free schema changed under expansion: %s", d[0].String())
+				}
+			})
 		case "resolve":
 			view := c.view(store, st.Variant)
 			cf, _ := oracleC05(c05Case{Graph: view, Base: view.Root, Ref: st.Ref, Kind: st.Kind, Modes: []string{"typed", "generic", "location"}})
@@ -202,6 +225,10 @@ func oracleC16(c c16Case, fresh bool) (*vstat.Failure, bool) {
 				nontrivial = true
 			}
 			mutatedSinceCall = false
+			if res.OptsDiff != "" {
+				f.Add("OPTIONS-CHANGED", where, "the caller's option structure is not what it was before the call: %s", res.OptsDiff)
+				break
+			}
 			if res.Err != "" {
 				f.Add("ERROR", where, "call failed on a store whose $refs all resolve: %s", res.Err)
 				break
@@ -219,6 +246,16 @@ func oracleC16(c c16Case, fresh bool) (*vstat.Failure, bool) {
 					}
 					if err := model.BisimMemoized(gin, gout, el.P, el.P, el.K, memo); err != nil {
 						f.Add("STALE-OR-WRONG", where, "the result is not what the documents hold now: %v", err)
+						break
+					}
+					// the $refs left at cycle cut-points are spelled as a call without history spells them (C03's rule:
+					// local pointer into the root, path relative to the root's folder, or canonical URL with AbsoluteCircularRef)
+					n := len(f.Atoms)
+					checkCutPoints(f, gin, gout, view.Root, el, st.Abs, true)
+					for j := n; j < len(f.Atoms); j++ {
+						f.Atoms[j].Path = where + " " + f.Atoms[j].Path
+					}
+					if len(f.Atoms) > n {
 						break
 					}
 				}
@@ -316,6 +353,8 @@ func genC16(t *rapid.T) c16Case {
 		case k <= 2:
 			// switch the whole store to variant v (documents this variant lacks keep their content, nothing in v refers to them)
 			c.Steps = append(c.Steps, c16Step{Op: "mutate", Variant: v, Docs: urls})
+		case k == 3 && rapid.Bool().Draw(t, "idschema"):
+			c.Steps = append(c.Steps, c16Step{Op: "idschema", Ref: c16IDs[gen.Uniform(t, "id", len(c16IDs))]})
 		case k == 3:
 			c.Steps = append(c.Steps, c16Step{Op: "meta", Ref: metaRefs[gen.Uniform(t, "meta", len(metaRefs))]})
 		case k <= 6:
